@@ -113,6 +113,14 @@ func (g *nameGen) optName(taken map[string]bool) string {
 				n += g.r.Pick(al)
 			}
 		}
+		if n != "" && isASCII(n) && g.r.Chance(1, 8) {
+			// names are case-sensitive: `v` and `V`, `ver` and `Ver` are different options (and sort bytewise, not alphabetically)
+			if g.r.Bool() {
+				n = strings.ToUpper(n[:1]) + n[1:]
+			} else {
+				n = strings.ToUpper(n)
+			}
+		}
 		if n == "" || taken[n] {
 			continue
 		}
